@@ -1049,6 +1049,6 @@ def main(ctx):
         return [np.asarray(v) for v in r]
 
     object_world(ctx, "several-objects", ["d3", "d6", "d9"], lambda kind: htm.HTM(int(kind[1:])),
-                 [("ids",), ("intersect", 1.0, True), ("intersect", 1.0, False), ("bincount",), ("badids",)], h_do, h_modules,
+                 [("ids",), ("intersect", 1.0, True), ("intersect", 1.0, False), ("bincount",), ("badids",)], h_do, h_modules, result_edits=True,
                  depth=ctx.pick(4, 5), check=h_check, state=lambda h: getattr(h, "__dict__", {}),
                  must_raise=lambda kind, op: op[0] == "badids")
